@@ -222,8 +222,10 @@ func apiCall(x *world, kind byte, rem *[]rw, noteBefore bool) (label string, det
 			label, detail = "te", err.Error()
 		}
 	}()
-	if !noteBefore || label != ok {
+	if !noteBefore {
 		x.ctl.Note("api", label)
+	} else if label != ok {
+		x.ctl.RenameLast("api", ok, label)
 	}
 	return
 }
@@ -299,7 +301,9 @@ func runSeq(seed uint64, id string, blocks int, reqs string, stop bool, seq []st
 			if nreq >= len(kinds) {
 				fail("more requests in the sequence than in the scenario")
 			}
-			got, detail := apiCall(x, kinds[nreq], &removable, false)
+			// once the run is free-running (auto-granting) the worker may act on the request before
+			// the call returns: note it first
+			got, detail := apiCall(x, kinds[nreq], &removable, diverged)
 			nreq++
 			if got != ev {
 				okEv = false
